@@ -680,8 +680,11 @@ def _discover():
         spec = importlib.util.spec_from_file_location(modname, path)
         mod = importlib.util.module_from_spec(spec)
         sys.modules.setdefault('translate', sys.modules[__name__])
-        spec.loader.exec_module(mod)
-        GENERATORS[mod.NAME] = mod.generate
+        try:
+            spec.loader.exec_module(mod)
+            GENERATORS[mod.NAME] = mod.generate
+        except Exception as e:      # a half-written generator of another property must not break this one
+            sys.stderr.write('translate: skipping %s (%r)\n' % (modname, e))
 _discover()
 
 def write_all(which=None, gen_dir=GEN_DIR):
